@@ -20,5 +20,5 @@ cargo test -p cao-lang --offline --test seeded_demo 2>&1 | grep -E "^test result
 git apply "$SRC/SEEDED_PATCH.diff"
 rm cao-lang/tests/seeded_demo.rs
 echo "== ./check $PROP against the patched checkout"
-cd /verif && VERIF_REPO="$WT" ./check "$PROP" --tier quick 2>&1 | cut -c1-300 | tail -8
+cd /verif && VERIF_REPO="$WT" VERIF_ALT_TAG="${VERIF_ALT_TAG:-}" ./check "$PROP" --tier quick 2>&1 | cut -c1-300 | tail -8
 echo "exit=$?"
